@@ -183,7 +183,7 @@ def case_strategy(draw, min_boards=1):
 def run_shard(spec, seed, tier, stats):
     v = run_hypothesis(lambda cs, schedule: check_session(cs[0], schedule, stats, fault=cs[1]),
                        {'cs': case_strategy(spec['min_boards']), 'schedule': SE.SCHEDULE()}, seed, spec['n'], tier == 'thorough')
-    return [v] if v else []
+    return [SE.reduce_violation(check_session, v)] if v else []
 
 
 def replay(rec):
